@@ -782,6 +782,15 @@ func (h *handler) handleClose(ctx context.Context) {
 		h.logger.Debug("Subscriber closed", nil)
 	case <-ctx.Done():
 		// we are closing subscriber just when entire router is closed
+		select {
+		case <-h.routersCloseCh:
+			// Run cancels ctx right after the router's close signal, so both cases can be ready
+			// and this one may be chosen: the router is closing, the subscriber has to be closed too
+			if err := h.subscriber.Close(); err != nil {
+				h.logger.Error("Failed to close subscriber", err, nil)
+			}
+		default:
+		}
 	}
 	h.stopFn()
 }
